@@ -6,6 +6,7 @@ import FstVerif.Model.Lev
 import FstVerif.Model.Merge
 import FstVerif.Model.Sched
 import FstVerif.Model.Frontends
+import FstVerif.Model.Glue
 import FstVerif.Spec.Format
 import FstVerif.Spec.Encode
 import FstVerif.Spec.Utf8
@@ -107,7 +108,10 @@ def cmdBuild (st : DrvState) (fe : String) (ty : Nat) (geom : String) (mode : St
   -- exhausted; each call ends at its first rejected item (whose error it returns) or at the
   -- end (`ok`); nothing but the rejected items is lost, so the builder sees the calls one by one
   let resS := if mode == "stop" then (if stopped then res.getLast?.getD "ok" else "ok")
-    else if mode == "resume" then ",".intercalate (res.filter (· != "ok") ++ ["ok"])
+    else if mode == "resume" then
+      let bcalls := calls.map fun c => match c with | .ins k v => BCall.ins k v | .add k => BCall.add k
+      ",".intercalate (((BState.new rows cols).resume bcalls []).2.map fun r => match r with
+        | .ok () => "ok" | .error e => showBErr e)
     else ",".intercalate res
   if stopped then
     (st, s!"build {resS} | fin=skipped")
@@ -332,9 +336,12 @@ def cmdSink (ty : Nat) (geom script flush prefill ops fe : String) : String × O
         | .error (.io _) => (x', (s :: acc).reverse, false)
         | .error _ => if isBatch then (x', (s :: acc).reverse, false) else go x' rest (s :: acc)
         | _ => go x' rest (s :: acc)
-    let (x, res, alive) := go x calls []
-    -- one `extend_*` call has one result: that of the last call made (or `ok` for none)
-    let res := if isBatch then [res.getLast?.getD s!"ok@{x.bytesWritten}"] else res
+    let (x, res, alive) :=
+      if isBatch then
+        -- one `extend_*` call (Model/Glue.lean `IOB.extend`): one result
+        let (x', r) := x.extend (calls.map fun c => match c with | .ins k v => BCall.ins k v | .add k => BCall.add k)
+        (x', [s!"{showRes r}@{x'.bytesWritten}"], match r with | .ok _ => true | _ => false)
+      else go x calls []
     if !alive then (s!"sink new=ok | {",".intercalate res} | fin=skipped | {showBytes x.cw.sink.held} | calls={x.cw.sink.calls}", none)
     else
       let (s, r) := x.intoInner
@@ -454,14 +461,13 @@ def protoSched (threads seed : Nat) (g : Nat) (xs : List KV) : List KV :=
 CR loses one CR; `rep:k:n` = the file holding the first `k` rows is listed `n` more times -/
 def inputRows (mode : String) (rows : List (Key × Nat)) (opt : String) : List (Key × Nat) :=
   let opts := opt.splitOn ","
-  -- an unterminated last line (`one,nonl`: single file without final newline) keeps its CR
-  let lastKeeps := opts.contains "one" && opts.contains "nonl"
-  let n := rows.length
-  let rows := rows.zipIdx.map fun ((k, v), i) =>
-    if mode == "set" && k.getLast? == some 13 && !(lastKeeps && i + 1 == n) then (k.dropLast, v) else (k, v)
-  match opts.filterMap (fun o => match o.splitOn ":" with | ["rep", k, n] => some (k.toNat!, n.toNat!) | _ => none) with
-  | (k, n) :: _ => rows ++ (List.replicate n (rows.take k)).flatten
-  | [] => rows
+  -- `one,nonl`: a single file whose last line is not terminated
+  let lastTerminated := !(opts.contains "one" && opts.contains "nonl")
+  let files : List (List (Key × Nat) × Bool) :=
+    match opts.filterMap (fun o => match o.splitOn ":" with | ["rep", k, n] => some (k.toNat!, n.toNat!) | _ => none) with
+    | (k, n) :: _ => [(rows.take k, true), (rows.drop k, true)] ++ List.replicate n (rows.take k, true)
+    | [] => [(rows, lastTerminated)]
+  fileRows (mode == "set") files
 
 def cmdMerge (mode : String) (batch fd threads seed : Nat) (rows : String) (opt : String := "") : String :=
   let m := match mode with
